@@ -51,6 +51,10 @@ class Result:
             oc = self.extra.setdefault("optimizer_outputs_validated", {"valid": 0, "invalid": 0, "changed": 0})
             for kk in oc:
                 oc[kk] += agg["optcheck"][kk]
+        if "passmodel" in agg:
+            pmm = self.extra.setdefault("optimizer_pass_model_tie", {"same": 0, "diff": 0, "changed": 0})
+            for kk in pmm:
+                pmm[kk] += agg["passmodel"][kk]
         for lab in agg["labels"]:
             if len(self.samples) < 8:
                 self.samples.append(lab)
@@ -108,7 +112,7 @@ def c01(tier, seed):
         ("G1", {"n_grammars": _sizes(tier, 700, 12000)}),
         ("G2", {"n": _sizes(tier, 500, 8000), "stack": True}),
         ("X", {"cases": gen.stack_cases(seed + 7, _sizes(tier, 400, 6000))}),
-        ("X", {"cases": gen.skip_trivia_cases() + gen.opt_cases(seed + 5, _sizes(tier, 150, 3000))}),
+        ("X", {"cases": gen.skip_trivia_cases() + gen.skip_name_cases() + gen.opt_cases(seed + 5, _sizes(tier, 150, 3000))}),
         ("G3", {}),
     ], ["C01"])
     r.rule = RULE_PARSE + " Judge: tree / furthest_pos of IG vs I and OG vs O; generated source loads; generate() twice is identical."
@@ -129,7 +133,8 @@ def c02(tier, seed):
             c["passes"] = [rng.choice(gen.PASS_NAMES) for _ in range(rng.randint(0, 6))]
     r = parse_family("C02", tier, seed, [
         ("X", {"cases": gen.opt_cases(seed + 5, _sizes(tier, 900, 12000))}),
-        ("X", {"cases": g1 + g2 + gen.skip_trivia_cases() + gen.squash_order_cases()}),
+        ("X", {"cases": g1 + g2 + gen.skip_trivia_cases() + gen.skip_name_cases() + gen.skip_rep_cases()
+                         + gen.squash_order_cases()}),
         ("G3", {}),
     ], ["C02"])
     r.rule = RULE_PARSE + (" Each grammar comes with an optimizer configuration: the default pipeline, one pass alone, or a "
@@ -161,7 +166,8 @@ def c04(tier, seed):
         ("X", {"cases": cases}),
         ("G2", {"n": _sizes(tier, 600, 10000)}),
         ("X", {"cases": [c for c in gen.opt_cases(seed + 3, _sizes(tier, 300, 4000))
-                         if "WHITESPACE" in c["grammar"] or "COMMENT" in c["grammar"]] + gen.skip_trivia_cases()}),
+                         if "WHITESPACE" in c["grammar"] or "COMMENT" in c["grammar"]] + gen.skip_trivia_cases()
+                  + gen.skip_name_cases()}),
     ], ["C04"])
     r.rule = RULE_PARSE + " Restricted to grammars with trivia rules and/or atomicity modifiers. Judge: every mode vs the reference semantics."
     return r
